@@ -29,6 +29,17 @@ def impl_verify_flags(args):
     return params
 
 
+def impl_discover_flags(args):
+    from tdda.constraints.flags import discover_parser, discover_flags
+    params = {}
+    try:
+        with contextlib.redirect_stderr(io.StringIO()):
+            discover_flags(discover_parser(), args, params)
+    except SystemExit as e:
+        return ('exit', e.code)
+    return params
+
+
 def impl_detect_flags(args):
     from tdda.constraints.flags import detect_parser, detect_flags
     params = {}
@@ -51,6 +62,11 @@ def layer_a(ctx):
                 cases.append(('verify', args))
                 payloads.append((0, bool(a), bool(f), bool(s7), [] if tc is None else [tc == 'strict'],
                                  [] if eps is None else [eps]))
+    for r, nr, s7 in itertools.product([0, 1], repeat=3):
+        for rf, nf in ((('-r', '-R'), ('--rex', '--norex')) if True else ()):
+            args = ([rf] if r else []) + ([nf] if nr else []) + (['-7'] if s7 else [])
+            cases.append(('discover', args))
+            payloads.append((2, bool(r), bool(nr)))
     dflag_names = ['-7', '--write-all', '--per-constraint', '--no-per-constraint', '--no-output-fields',
                    '--interleave', '--index', '--int']
     for bits in itertools.product([0, 1], repeat=len(dflag_names)):
@@ -71,12 +87,20 @@ def layer_a(ctx):
         if cmd == 'verify':
             got = impl_verify_flags(args)
             want = None
-            if mo is not None:
+            if mo is not None and mo == []:
+                want = ('exit', 1)
+            elif mo is not None:
+                mo = mo[0]
                 want = {'report': ['all', 'fields', 'records'][mo[0]], 'ascii': bool(mo[1])}
                 if mo[2] != []:
                     want['type_checking'] = 'strict' if mo[2][0] else 'sloppy'
                 if mo[3] != []:
                     want['epsilon'] = float(mo[3][0])
+        elif cmd == 'discover':
+            got = impl_discover_flags(args)
+            want = None
+            if mo is not None:
+                want = ('exit', 1) if mo == [] else {'inc_rex': bool(mo[0])}
         else:
             got = impl_detect_flags(args)
             want = None
